@@ -730,6 +730,8 @@ func (ps *peerScore) DeliverMessage(msg *Message) {
 			ps.markDuplicateMessageDelivery(p, msg, time.Time{})
 		}
 	}
+	// the first deliverer has been credited above; a copy it sends later is not another delivery
+	drec.peers[msg.ReceivedFrom] = struct{}{}
 }
 
 func (ps *peerScore) RejectMessage(msg *Message, reason string) {
